@@ -112,3 +112,11 @@ package ipfshttp
 //@   ensures [repogc-timeout] err == nil ==> jcfg.RepoGCTimeout == cfg.RepoGCTimeout.String()
 //@   ensures [unpin-disable] err == nil ==> jcfg.UnpinDisable == cfg.UnpinDisable
 //@   modifies nothing
+
+// ---- C18: "shutting a component down while it is in use": the shutdown flag is only read and written with the
+// shutdown lock held, so that concurrent Shutdown calls run the teardown once ----
+//@ guards Connector.shutdownLock: shutdown
+//@ func (ipfs *Connector) Shutdown
+//@   property C18
+//@   opts own
+//@   modifies *
